@@ -55,3 +55,11 @@ let split_bar (line : string) : string list =
 
 let iter_lines (f : string -> unit) =
   try while true do f (input_line stdin) done with End_of_file -> ()
+
+(* command registry: each drv_*.ml registers its commands at link time *)
+let commands : (string, unit -> unit) Hashtbl.t = Hashtbl.create 16
+let register (name : string) (f : unit -> unit) = Hashtbl.replace commands name f
+let dispatch (name : string) =
+  match Hashtbl.find_opt commands name with
+  | Some f -> f ()
+  | None -> prerr_endline ("driver: unknown command " ^ name); exit 2
